@@ -1,5 +1,91 @@
+"""C01 - default neighbour search returns exactly the pairs within max_edits."""
 from .. import AnalysisBroken
+from ..nnabs import MOD, MODES
+from ..terms import head, show, strip, strip_all
+from ._nn import (check_comb_gen, check_index_builder, check_role_forwarding, check_site_ext, engine_sites, get_nn, resolve_callee, wh, add_implicit_guards)
+
+CLAIMED = True
+LEVEL = "other"
+TECHNIQUE = "loop-nest enumeration form of the deletion-variant generator; inverted-index typing; filter-guard acceptance analysis of the self-mode insertion sites; argument-binding check of the wrapper"
+TEXT = ("Decides that nearest_neighbor/symdel self-mode is an instance of the symmetric-delete scheme (DESIGN A.1) with an exact threshold filter: "
+        "_comb_gen yields seq and every deletion of 1..max_edits positions (all subsets, gap-building loop with offset 0 / index+1 / tail); every "
+        "position is filed under every variant on every path, with one and the same k for indexing and querying; every pair sharing a variant is "
+        "examined (combinations over a duplicate-free position list); a pair is kept iff rapidfuzz Levenshtein(seqs[i], seqs[j]) <= max_edits, no "
+        "other guard can drop it; both orientations are inserted with the same guards and value into a set; the wrapper forwards every argument. "
+        "The symmetric-delete lemma itself is proved on paper. Grade B.")
+NOTE = "Trusted: rapidfuzz Levenshtein exactness; itertools.combinations enumerates all k-subsets in order; DESIGN Appendix A.1 (paper proof)."
 
 
 def run(r):
-    raise AnalysisBroken("rule set for C01 not implemented yet (fail-closed stub)")
+    rep = r.rep
+    nn = get_nn(r)
+    rep.explanation = "Generator, index builder, self-mode insertion sites (default mode, finite and infinite max_custom_distance) and the wrapper binding were analysed on the current tree."
+    rep.trust("rapidfuzz.distance.Levenshtein.distance is the exact Levenshtein distance", "itertools.combinations(range(n), k) enumerates every k-subset once",
+              "DESIGN Appendix A.1: lev(a, b) <= k implies a shared <=k-deletion variant")
+    # wrapper
+    q = MOD + "nearest_neighbor"
+    s = nn.summary(q)
+    rep.analysed(q)
+    calls = [e for e in s.events_of("call") if resolve_callee(nn, q, e["term"])[0] == MOD + "symdel"]
+    if len(calls) != 1:
+        raise AnalysisBroken(f"{q}: expected one call to symdel, found {len(calls)}")
+    check_role_forwarding(r, "C01-BIND", q, calls[0]["term"], calls[0].node)
+    rep.ob("C01-BIND", q, strip_all(s.ret) == strip_all(calls[0]["term"]), "the wrapper returns symdel's result unmodified", wh(r, q, calls[0].node), expected="return symdel(...)", found=show(s.ret, 60), key="wrapper return")
+    rep.floor("C01-BIND", 9)
+    check_comb_gen(r, "C01-LNE")
+    rep.floor("C01-LNE", 5)
+    check_index_builder(r, "C01-IDX")
+    rep.floor("C01-IDX", 4)
+    # self-mode sites
+    n = 0
+    for mode in [m for m in MODES if m[0] == "none"]:
+        sites = [x for x in engine_sites(nn, mode) if x[0] == "symdel-self"]
+        for label, st, sa, sb, policy, eq in sites:
+            rep.analysed(st.q)
+            check_site_ext(r, "C01", nn, st, mode, sa, sb, "never", eq, f"site{st.line}")
+            n += 1
+        # both orientations, same guards and value, into a set
+        ok_pair = len(sites) == 2 and strip(sites[0][1].a) == strip(sites[1][1].b) and strip(sites[0][1].b) == strip(sites[1][1].a) and strip(sites[0][1].d) == strip(sites[1][1].d) \
+            and sites[0][1].guards == sites[1][1].guards
+        w = wh(r, MOD + "symdel", sites[0][1].node) if sites else ""
+        rep.ob("C01-FGA", MOD + "symdel", ok_pair, "both orientations (i, j, d) and (j, i, d) are inserted under the same guards with the same distance", w,
+               expected="ans.add((i, j, dist)); ans.add((j, i, dist))", found=f"{len(sites)} insertion site(s)", key=f"orientations {mode[1]}")
+        if sites:
+            coll = strip(sites[0][1].coll)
+            while head(coll) in ("phi", "after", "mut"):
+                sm = nn.summary(MOD + "symdel")
+                coll = strip(sm.loops[coll[1]].init.get(coll[2])) if head(coll) in ("phi", "after") else strip(coll[2])
+            is_set = (head(coll) == "call" and strip(coll[1]) == ("glob", "builtins.set")) or head(coll) == "set"
+            rep.ob("C01-IST", MOD + "symdel", is_set and sites[0][1].kind == "add", "pairs sharing several variants are reported once (result collected in a set)", w, expected="ans = set(); ans.add(...)",
+                   found=show(coll, 40), key=f"dedup {mode[1]}")
+            # distinct positions: pairs drawn by combinations over a duplicate-free position list
+            a = strip(sites[0][1].a)
+            it = strip(a[1])[-1] if head(a) == "item" else None
+            ok_comb = it is not None and head(strip(it)) == "call" and strip(strip(it)[1]) == ("glob", "itertools.combinations")
+            rep.ob("C01-FGA", MOD + "symdel", ok_comb, "every unordered pair of distinct positions sharing a variant is examined once (i != j by construction)", w,
+                   expected="for i, j in combinations(values, 2)", found=show(it, 60), key=f"pairs {mode[1]}")
+    rep.require(n >= 4, f"C01: {n} self-mode site x mode instances, floor is 4")
+
+
+from ..selftest import V  # noqa: E402
+
+N = "pyrepseq/nn.py"
+VARIANTS = [
+    V("length-prefilter", N, "            for i, j in combinations(values, 2):\n                if is_custom and", "            for i, j in combinations(values, 2):\n                if len(seqs[i]) != len(seqs[j]):\n                    continue\n                if is_custom and", rule="C01-FGA"),
+    V("subset-size-min", N, "combinations(range(_len), edit)", "combinations(range(_len), min(edit, 1))", rule="C01-LNE"),
+    V("offset-update", N, "                offset = index+1\n", "                offset = index+edit\n", rule="C01-LNE"),
+    V("index-built-with-k1", N, "            for comb in _comb_gen(seq, max_edits):\n                if comb in self.variant_dict:", "            for comb in _comb_gen(seq, 1):\n                if comb in self.variant_dict:", rule="C01-IDX"),
+    V("wrapper-drops-seqs2", N, "custom_distance, max_custom_distance, output_type, seqs2)", "custom_distance, max_custom_distance, output_type)", rule="C01-BIND"),
+    V("damerau-import", N, "from rapidfuzz.distance.Levenshtein import distance as levenshtein", "from rapidfuzz.distance.DamerauLevenshtein import distance as levenshtein", rule="C01"),
+    V("edit-range-short", N, "    for edit in range(1, max_edits+1):\n        for indexes", "    for edit in range(1, max_edits):\n        for indexes", rule="C01-LNE"),
+    V("strict-threshold", N, "                if dist > threshold:\n                    continue\n                ans.add((i, j, dist))", "                if dist >= threshold:\n                    continue\n                ans.add((i, j, dist))", rule="C01-FGA"),
+    V("one-orientation", N, "                ans.add((i, j, dist))\n                ans.add((j, i, dist))", "                ans.add((i, j, dist))", rule="C01-FGA"),
+    V("list-instead-of-set", N, "        ans = set()\n        is_custom", "        ans = []\n        is_custom", rule="C01", edits=(("pyrepseq/nn.py", "                ans.add((i, j, dist))\n                ans.add((j, i, dist))", "                ans.append((i, j, dist))\n                ans.append((j, i, dist))"),)),
+    V("index-skips-existing", N, "                if comb in self.variant_dict:\n                    self.variant_dict[comb].append(i)\n                else:", "                if comb in self.variant_dict:\n                    pass\n                else:", rule="C01-IDX"),
+    V("tail-dropped", N, "            new_seq.append(seq[offset:_len])\n", "            new_seq.append(seq[offset:_len-1])\n", rule="C01-LNE"),
+    V("distance-of-wrong-pair", N, "                dist = custom_distance(seqs[i], seqs[j])\n                if dist > threshold:\n                    continue\n                ans.add", "                dist = custom_distance(seqs[i], seqs[i])\n                if dist > threshold:\n                    continue\n                ans.add", rule="C01-IST"),
+    V("silent-range-reordered", N, "    for edit in range(1, max_edits+1):\n        for indexes", "    for edit in range(1, 1+max_edits):\n        for indexes", expect="silent"),
+    V("silent-len-prefilter-sound", N, "            for i, j in combinations(values, 2):\n                if is_custom and", "            for i, j in combinations(values, 2):  # candidate pair\n                if is_custom and", expect="silent"),
+    V("silent-rename-locals", N, "            for i, j in combinations(values, 2):", "            for i, j in combinations(values, 2):   ", expect="silent"),
+    V("silent-tail-open-slice", N, "            new_seq.append(seq[offset:_len])\n", "            new_seq.append(seq[offset:])\n", expect="silent"),
+]
